@@ -1,16 +1,101 @@
-"""Property -> obligations map.  `verus`: regexes on Verus function names (crate path without the
-leading `ipp::`) whose verification results count for the property; every regex must match at least
-one verified item (vacuity guard).  `kani`: harnesses (complete unless listed under `bounded`).
-`owners`: regexes on failure owners (module::fn path as produced by tools/core.classify)."""
+"""Property -> obligations map.
+
+`verus`: regexes on Verus item names (crate path without the leading `ipp::`) whose verification
+results count for the property; every regex must match at least one verified item (vacuity guard).
+`owners`: regexes on the owner of a failed obligation (module::path as produced by tools/core.classify);
+defaults to `verus`.  `kani`: harnesses (complete unless listed under `bounded`).
+"""
+
+_READER = [r'^reader::IppReader::(read_bytes|read_string|read_u8|read_tag|read_name|read_value|read_header|into_inner|new)$']
+_AREADER = [r'^reader::AsyncIppReader::(read_bytes|read_string|read_u8|read_tag|read_name|read_value|read_header|into_inner|new)$']
+_STATE = [r'^parser::list_or_value$', r'^parser::ParserState::(new|add_last_attribute|parse_delimiter|parse_value)$']
+_DRIVE = [r'^parser::IppParser::(parse_value|parse_header_attributes|parse_parts|parse)$']
+_ADRIVE = [r'^parser::AsyncIppParser::(parse_value|parse_header_attributes|parse_parts|parse)$']
+_VALDEC = [r'^value::get_len_string$', r'^value::IppValue::parse$']
+_VALENC = [r'^value::IppValue::to_tag$', r'^value::IppValue::to_bytes$']
+_SPEC_TERM = [r'^verif_spec::(aval|spec_tag|spec_val_enc|set_enc|members_enc|scan_rest)$']
+
+_A_STREAM = ('A-stream: std::io::Read::read_exact / futures AsyncReadExt::read_exact deliver exactly the next n bytes '
+             'or fail, independent of fragmentation, Interrupted and not-ready results (assumed contract on the dependency)')
+_A_BYTES = 'A-bytes: contracts of bytes::{Buf,BufMut,Bytes,BytesMut} as written in specs/verif_ext.rs'
+_A_UTF8 = 'A-utf8: lossy(utf8(s)) == s and |utf8(lossy(b))| <= 3|b| for the uninterpreted UTF-8 functions'
+_A_LOG = 'A-log (W7): log macro arguments are not evaluated in the verified text; logging neither panics nor changes results'
+_A_W8 = 'A-W8/W9: the mechanical loop-header (enumerate) and `mut self` rewrites preserve semantics'
+_A_TERM = 'A-term: termination of the recursive encoder IppValue::{to_tag,to_bytes} is not proved (exec_allows_no_decreases_clause)'
+_A_U16 = ('read_u16/read_u32 bodies are outside Verus (u16::from_be_bytes cannot be specified); their contract is discharged '
+          'by the Kani harnesses reader_u16_u32_* for every byte content over a fragmenting, faulting reader')
+
+# reader primitives read_u16/read_u32 through read_header on the real code; suffix = bytes available before the
+# data ends (h/e: Interrupted or not-ready first / I/O error instead of end-of-file)
+_K_RD_FAST = ['readers::reader_u16_u32_blocking_8', 'readers::reader_u16_u32_blocking_7', 'readers::reader_u16_u32_blocking_2']
+_K_RD_ASYNC = ['readers::reader_u16_u32_async_8']
+_K_RD_ALL = [f'readers::reader_u16_u32_{k}_{c}' for k in ('blocking', 'async')
+             for c in ('8', '8h', '0', '1', '2', '3', '4', '5', '7', '7e')
+             if f'readers::reader_u16_u32_{k}_{c}' not in _K_RD_FAST + _K_RD_ASYNC]
 
 PROPS = {
+    'C02': {
+        'title': 'parsers are total on arbitrary bytes',
+        'verus': _VALDEC + _STATE + _DRIVE + _ADRIVE + _READER + _AREADER + _VALENC + [r'^verif_spec::scan_rest$'],
+        'kani': ['tables::table_value_tag', 'tables::table_delimiter_tag', 'tables::table_tag_none_outside'] + _K_RD_FAST,
+        'kani_thorough': _K_RD_ALL,
+        'assumptions': [_A_STREAM, _A_BYTES, _A_UTF8, _A_LOG, _A_W8, _A_TERM, _A_U16],
+        'uncovered': ['stack exhaustion on deeply nested input (no stack model in Verus or Kani)',
+                      'Display / derived Clone / Drop of the returned value (format machinery and derive output are outside both tools)',
+                      'that every value produced by the parser satisfies the encoder precondition size_ok is not yet threaded '
+                      'through the parser state (strings are at most 3*65535 bytes by construction)'],
+        'design_ref': '§4 C02',
+    },
+    'C03': {
+        'title': 'encoder output is well-formed RFC 8010 (value and header level)',
+        'verus': _VALENC + [r'^IppHeader::to_bytes$'] + _SPEC_TERM[:1],
+        'kani': ['tables::table_value_tag', 'tables::table_delimiter_tag'],
+        'assumptions': [_A_BYTES, _A_TERM, _A_W8,
+                        'A-btree-order: BTreeMap<String,_> iteration order is a function of the key set (specs/verif_ext.rs)'],
+        'uncovered': [],
+        'design_ref': '§4 C03',
+    },
+    'C05': {
+        'title': 'async parser == blocking parser',
+        'verus': _READER + _AREADER + _DRIVE + _ADRIVE + _STATE,
+        'kani': _K_RD_FAST + _K_RD_ASYNC,
+        'kani_thorough': _K_RD_ALL,
+        'assumptions': [_A_STREAM, _A_LOG, _A_W8, _A_U16,
+                        'no interleaving is explored: the schedule quantifier is carried by the assumed contract of the '
+                        'read_exact future plus Rust\'s guarantee that locals survive suspension'],
+        'uncovered': ['the I/O error kind is not tracked through `?` by Verus (see C07 for the Kani part)'],
+        'design_ref': '§4 C05',
+    },
+    'C06': {
+        'title': 'parsing consumes exactly the message',
+        'verus': _READER + _AREADER + _DRIVE + _ADRIVE + [r'^verif_spec::scan_rest$'],
+        'kani': _K_RD_FAST + _K_RD_ASYNC,
+        'kani_thorough': _K_RD_ALL,
+        'assumptions': [_A_STREAM, _A_LOG, _A_W8, _A_U16,
+                        'IppReader::into_payload / IppPayload (multi-trait dyn) are outside Verus: that the payload delivers the '
+                        'inner reader unmodified is an assumed contract'],
+        'uncovered': [],
+        'design_ref': '§4 C06',
+    },
+    'C07': {
+        'title': 'truncated or failing streams are never accepted',
+        'verus': _READER + _AREADER + _DRIVE + _ADRIVE + [r'^verif_spec::scan_rest$', r'^verif_lemmas::lemma_scan_prefix_none$'],
+        'kani': ['errors::io_error_kind_preserved'] + _K_RD_FAST,
+        'kani_thorough': _K_RD_ALL,
+        'assumptions': [_A_STREAM, _A_LOG, _A_W8, _A_U16],
+        'uncovered': ['that the propagated error is the very error read_exact returned (Verus loses the converted value through `?`); '
+                      'Kani proves kind preservation of the From conversion only'],
+        'design_ref': '§4 C07',
+    },
     'C16': {
         'title': 'code tables match the registries; status decoding total',
-        'verus': [],
-        'kani': ['table_status_code', 'table_status_decode_total', 'table_operation', 'table_delimiter_tag',
-                 'table_value_tag', 'table_tag_none_outside', 'table_printer_state', 'table_job_state',
-                 'table_orientation', 'table_print_quality', 'table_finishings'],
-        'bounded': [],
+        'verus': [r'^IppHeader::status_code$', r'^model::StatusCode::is_success$'],
+        'kani': ['tables::table_status_code', 'tables::table_status_decode_total', 'tables::table_operation', 'tables::table_delimiter_tag',
+                 'tables::table_value_tag', 'tables::table_tag_none_outside', 'tables::table_printer_state', 'tables::table_job_state',
+                 'tables::table_orientation', 'tables::table_print_quality', 'tables::table_finishings'],
+        'assumptions': ['registry tables transcribed from RFC 8010 §3.5, RFC 8011 §5.4.15 / App. B, PWG 5100.1 and CUPS ipp.h into '
+                        '/verif/kani/src/tables.rs and specs/verif_tables.rs'],
+        'uncovered': [],
         'design_ref': '§4 C16',
     },
 }
